@@ -326,31 +326,33 @@ func c26(x *Ctx) {
 
 	// ---- stale batches are looked at every quarter of the timeout (or more often) ---------------------------------------
 	const r7 = "C26.stale-ticker-period"
-	if ds := x.Fn(r7, "transmit", "DirectTransmission", "dispatchStaleBatches"); ds != nil {
+	{
 		btF := eng.FieldIs("transmit", "DirectTransmission", "batchTimeout")
 		n := 0
-		eng.Instrs(ds, func(in ssa.Instruction) {
-			cl, ok := in.(ssa.CallInstruction)
-			if !ok || !strings.HasSuffix(eng.CalleeName(cl), ".NewTicker") {
-				return
-			}
-			a := eng.CallArgs(cl)[0]
-			if _, d := eng.Derives(a, func(v ssa.Value) bool { return loadsField(v, btF) }, eng.FlowOpts{}); !d {
-				return // another ticker (metrics)
-			}
-			n++
-			c.Examined++
-			ok2 := false
-			if bo, isB := eng.StripConv(a).(*ssa.BinOp); isB && bo.Op == token.QUO && loadsField(eng.StripConv(bo.X), btF) {
-				if k, isK := eng.ConstInt(bo.Y); isK && k >= 4 {
-					ok2 = true
+		for _, ds := range x.PkgFuncs("transmit") {
+			eng.Instrs(ds, func(in ssa.Instruction) {
+				cl, ok := in.(ssa.CallInstruction)
+				if !ok || !strings.HasSuffix(eng.CalleeName(cl), ".NewTicker") {
+					return
 				}
-			}
-			c.Decide(ok2, r7, "dispatchStaleBatches/ticker", x.Pos(in), "period = BatchTimeout / k with k ≥ 4",
-				"the stale-batch ticker's period is not BatchTimeout divided by at least 4 (it has a floor, a cap or another formula): a batch whose first event arrives just after a tick is dispatched later than 1.25 × BatchTimeout")
-		})
+				a := eng.CallArgs(cl)[0]
+				if _, d := eng.Derives(a, func(v ssa.Value) bool { return loadsField(v, btF) }, eng.FlowOpts{}); !d {
+					return // another ticker (metrics)
+				}
+				n++
+				c.Examined++
+				ok2 := false
+				if bo, isB := eng.StripConv(a).(*ssa.BinOp); isB && bo.Op == token.QUO && loadsField(eng.StripConv(bo.X), btF) {
+					if k, isK := eng.ConstInt(bo.Y); isK && k >= 4 {
+						ok2 = true
+					}
+				}
+				c.Decide(ok2, r7, "dispatchStaleBatches/ticker", x.Pos(in), "period = BatchTimeout / k with k ≥ 4",
+					"the stale-batch ticker's period is not BatchTimeout divided by at least 4 (it has a floor, a cap or another formula): a batch whose first event arrives just after a tick is dispatched later than 1.25 × BatchTimeout")
+			})
+		}
 		if n == 0 {
-			c.Undecided(r7, "dispatchStaleBatches/ticker", x.PosOf(ds.Pos()), "cannot find the ticker derived from BatchTimeout")
+			c.Undecided(r7, "dispatchStaleBatches/ticker", "transmit/direct_transmit.go", "cannot find the ticker derived from BatchTimeout")
 		}
 	}
 }
